@@ -362,12 +362,13 @@ pub fn dir_stream(p: &Project) -> Vec<u8> {
     o.extend_from_slice(&0x0013u16.to_le_bytes());
     o.extend_from_slice(&2u32.to_le_bytes());
     o.extend_from_slice(&0xFFFFu16.to_le_bytes());
-    for m in &p.modules {
+    for (mi, m) in p.modules.iter().enumerate() {
         let n = encode_mbcs(&m.name, p.codepage);
+        let sn = stream_name(p, mi);
         var(&mut o, 0x0019, &n);
         var(&mut o, 0x0047, &utf16(&m.name));
-        var(&mut o, 0x001A, &n);
-        var(&mut o, 0x0032, &utf16(&m.name));
+        var(&mut o, 0x001A, &encode_mbcs(&sn, p.codepage));
+        var(&mut o, 0x0032, &utf16(&sn));
         var(&mut o, 0x001C, b"");
         var(&mut o, 0x0048, b"");
         var(&mut o, 0x0031, &(m.text_offset as u32).to_le_bytes());
@@ -391,6 +392,25 @@ pub fn dir_stream(p: &Project) -> Vec<u8> {
     o
 }
 
+thread_local! {
+    /// when set, the stream that holds a module is not named after the module: the names are
+    /// rotated among the modules (MODULESTREAMNAME != MODULENAME; a single module gets "Strm_<name>")
+    pub static STREAM_NAMES_DIFFER: std::cell::Cell<bool> = const { std::cell::Cell::new(false) };
+}
+
+/// name of the stream holding module `i`
+pub fn stream_name(p: &Project, i: usize) -> String {
+    if STREAM_NAMES_DIFFER.with(|c| c.get()) {
+        if p.modules.len() == 1 {
+            format!("Strm_{}", p.modules[0].name)
+        } else {
+            p.modules[(i + 1) % p.modules.len()].name.clone()
+        }
+    } else {
+        p.modules[i].name.clone()
+    }
+}
+
 /// compound-file entries of the project; `root` = name of an enclosing storage (xls) or None
 pub fn project_entries(p: &Project, strat: Strategy, root: Option<&str>, rng: &mut Rng, st: &mut Stats) -> Vec<Entry> {
     let mut e: Vec<Entry> = vec![];
@@ -402,10 +422,10 @@ pub fn project_entries(p: &Project, strat: Strategy, root: Option<&str>, rng: &m
     e.push(Entry { name: "VBA".into(), data: None, parent: base });
     let dir = compress(&dir_stream(p), if strat == Strategy::Raw { Strategy::Greedy } else { strat }, rng, st);
     e.push(Entry { name: "dir".into(), data: Some(dir), parent: Some(vba) });
-    for m in &p.modules {
+    for (mi, m) in p.modules.iter().enumerate() {
         let mut d: Vec<u8> = (0..m.text_offset).map(|i| (i * 31 + 7) as u8).collect();
         d.extend_from_slice(&compress(&m.source, strat, rng, st));
-        e.push(Entry { name: m.name.clone(), data: Some(d), parent: Some(vba) });
+        e.push(Entry { name: stream_name(p, mi), data: Some(d), parent: Some(vba) });
     }
     e.push(Entry { name: "_VBA_PROJECT".into(), data: Some(vec![0xCC, 0x61, 0xFF, 0xFF, 0, 0, 0]), parent: Some(vba) });
     e.push(Entry { name: "PROJECT".into(), data: Some(b"ID=\"{00000000-0000-0000-0000-000000000000}\"\r\n".to_vec()), parent: base });
